@@ -200,7 +200,7 @@ pub fn scenarios(tier: Tier) -> Vec<Scenario> {
     v.push(Scenario::new(
         "two-way bootstrap (the client's first message names its own server)",
         Cfg { sched: true, fake_sndbuf: Some(4608), yield_alts: cfg!(feature = "inproc"), ..Default::default() },
-        if tier.is_quick() { 2 } else { 3 },
+        if tier.is_quick() { 2 } else { 4 },
         two_way_body,
     ));
     let mut add = |p: P, bound: u32| {
@@ -223,12 +223,12 @@ pub fn scenarios(tier: Tier) -> Vec<Scenario> {
         // several first packets on the connected socket itself while the server is not reading
         add(P { msgs: vec![One, S, One], attach_at: Some(2), real_small_buffer: true }, 2);
     } else {
-        add(P { msgs: vec![One, S, One], attach_at: Some(2), real_small_buffer: true }, 3);
-        add(P { msgs: vec![One, One], attach_at: None, real_small_buffer: true }, 3);
+        add(P { msgs: vec![One, S, One], attach_at: Some(2), real_small_buffer: true }, 4);
+        add(P { msgs: vec![One, One], attach_at: None, real_small_buffer: true }, 4);
         for msgs in [vec![S], vec![L2], vec![S, S], vec![S, L2], vec![L2, S], vec![L3, S, S], vec![S, L3, One]] {
             for att in [None, Some(0), Some(msgs.len() - 1)] {
                 for real in [false, true] {
-                    add(P { msgs: msgs.clone(), attach_at: att, real_small_buffer: real }, if msgs.len() <= 1 { 4 } else if msgs.len() <= 2 { 3 } else { 2 });
+                    add(P { msgs: msgs.clone(), attach_at: att, real_small_buffer: real }, if msgs.len() <= 1 { 5 } else if msgs.len() <= 2 { 4 } else { 3 });
                 }
             }
         }
